@@ -5,15 +5,19 @@
 using namespace ob;
 
 // decision chain over the entries: the first entry that names axis I decides "reversed"; if none does, the axis keeps its direction
-template <size_t R, size_t M, size_t I, size_t J, class S>
-__attribute__((always_inline)) inline void flip_chain(const std::array<int,M>& axes, const S& s)
+// (the function under test is called inside each leaf, so that it is evaluated under the facts of that case)
+template <size_t R, size_t M, size_t I, size_t J>
+__attribute__((always_inline)) inline void flip_chain(const std::array<int,M>& axes)
 {
-    const int step = (int)nm::get<2>(nm::at(s, I));
-    if constexpr (J == M) OBLIGE("C03.flip.other_axes_keep_direction", step == 1, R, M, I);
-    else {
+    if constexpr (J == M) {
+        auto s = ix::flip_slices(meta::ct_v<R>, axes);
+        OBLIGE("C03.flip.other_axes_keep_direction", (int)nm::get<2>(nm::at(s, I)) == 1, R, M, I);
+    } else {
         const int a = axes[J]; const int n = a < 0 ? a + (int)R : a;
-        if (n == (int)I) OBLIGE("C03.flip.requested_axis_is_reversed", step == -1, R, M, I, J);
-        else flip_chain<R,M,I,J+1>(axes, s);
+        if (n == (int)I) {
+            auto s = ix::flip_slices(meta::ct_v<R>, axes);
+            OBLIGE("C03.flip.requested_axis_is_reversed", (int)nm::get<2>(nm::at(s, I)) == -1, R, M, I, J);
+        } else flip_chain<R,M,I,J+1>(axes);
     }
 }
 template <size_t R, size_t M>
@@ -23,7 +27,7 @@ void ob_c03_flip_list(const std::array<int,M>& axes_)
     for_<M>([&](auto J){ ASSUME(axes[J.value] >= -(int)R); ASSUME(axes[J.value] < (int)R); });
     auto s = ix::flip_slices(meta::ct_v<R>, axes);
     OBLIGE("C03.flip.one_slice_per_axis", (size_t)nm::len(s) == R, R, M);
-    for_<R>([&](auto I){ flip_chain<R,M,I.value,0>(axes, s); });
+    for_<R>([&](auto I){ flip_chain<R,M,I.value,0>(axes); });
 }
 template <size_t R>
 void ob_c03_flip_scalar(int axis)
@@ -51,6 +55,6 @@ void ob_c03_flip_negctl(int axis)
     NEGCTL("C03.NEG.flip_reverses_axis0", (int)nm::get<2>(nm::at(s, 0)) == -1, 0);
 }
 #define FL(R,M) template void ob_c03_flip_list<R,M>(const std::array<int,M>&);
-FL(1,1) FL(2,1) FL(2,2) FL(3,1) FL(3,2) FL(3,3) FL(4,2) FL(4,3)
+FL(2,1) FL(2,2) FL(3,1) FL(3,2) FL(3,3) FL(4,2) FL(4,3)
 #define FS(R) template void ob_c03_flip_scalar<R>(int); template void ob_c03_flip_none<R>();
 FS(1) FS(2) FS(3) FS(4)
